@@ -387,7 +387,9 @@ fn transition(env: &Env, st: &State, pre_dec: &Decoded, op: &Op, ctx: &mut Ctx) 
         let overflow = has(&["overruns slot", "overruns file", "stranded", "not the start of a slot", "unaligned", "another entry"]);
         let structure = has(&["Chain:", "Placement:", "Dup:", "Count:", "Bitmap:", "ValRef:", "Header:", "Fatal:", "decoded ", "is missing from the decoded"]);
         let storage = has(&["Tiling:", "Membership:", "FreeList:", "Fatal:"]);
+        let extension = msg.contains("although the free slot");
         let owners: &'static [&'static str] = match (overflow, structure, storage) {
+            _ if extension => &["C06"],
             (true, true, _) => &["C08", "C09", "C05"],
             (true, false, true) => &["C08", "C09", "C06"],
             (true, false, false) => &["C08", "C09"],
@@ -455,6 +457,55 @@ fn transition(env: &Env, st: &State, pre_dec: &Decoded, op: &Op, ctx: &mut Ctx) 
     if let Some(p) = prob {
         fail(ctx, format!("after {}: files no longer decode to the expected contents: {p}", op.text()));
         return Err(());
+    }
+    // a file is extended only when no free slot of a suitable size exists (C06): a slot that was free before the call
+    // and is still free after it, on the list the new slot's size belongs to, should have been taken instead
+    for (nm, pf, qf, plen, qlen) in [("key", &pre_dec.keyf, &dec.keyf, st.img.key.len(), post.key.len()), ("val", &pre_dec.valf, &dec.valf, st.img.val.len(), post.val.len())] {
+        if qlen <= plen {
+            continue;
+        }
+        ctx.count("extension_events_audited", 1);
+        let free_both: Vec<(u64, u32, usize)> = qf
+            .slots
+            .iter()
+            .filter_map(|q| match (q.kind, pf.slot_at(q.off).map(|p| (p.kind, p.size))) {
+                (crate::decoder::SlotKind::Free(l), Some((crate::decoder::SlotKind::Free(_), psz))) if psz == q.size => Some((q.off, q.size, l)),
+                _ => None,
+            })
+            .collect();
+        for q in qf.slots.iter().filter(|q| q.off >= plen as u64) {
+            let ci = crate::decoder::class_index(q.size);
+            if let Some((off, sz, l)) = free_both.iter().find(|(_, sz, l)| *l == ci && (ci < 15 || *sz >= q.size)) {
+                fail(ctx, format!("after {}: {nm} file grew from {plen} to {qlen} by a new slot of {} bytes at {} although the free slot at {off} ({sz} bytes, free list {l}) was available before and after the call", op.text(), q.size, q.off));
+                return Err(());
+            }
+        }
+    }
+    // the same rule for a slot that was freed *inside* this call: a relocation cascade works from the updated record
+    // towards the bucket head; each step takes a slot (free list or end of file) and then frees the old one. A record
+    // that was appended although a record processed before it (further from the head) had just freed a slot of the
+    // class it needed should have taken that slot.
+    // (overwrites only: a delete rewrites the predecessor first and frees the deleted record's slot afterwards)
+    if post.key.len() > st.img.key.len() && matches!(op, Op::Put(..)) {
+        let plen = st.img.key.len() as u64;
+        let freed: Vec<(u64, u32, usize, usize)> = dec
+            .keyf
+            .slots
+            .iter()
+            .filter_map(|q| match (q.kind, pre_dec.keyf.slot_at(q.off).map(|p| p.kind)) {
+                (crate::decoder::SlotKind::Free(l), Some(crate::decoder::SlotKind::Used)) => pre_dec.entries.iter().find(|e| e.key_off == q.off).map(|e| (q.off, q.size, l, e.chain_pos)),
+                _ => None,
+            })
+            .collect();
+        for e_new in dec.entries.iter().filter(|e| e.key_off >= plen) {
+            let Some(e_pre) = pre_dec.entries.iter().find(|p| p.key == e_new.key) else { continue };
+            let ci = crate::decoder::class_index(e_new.key_size);
+            if let Some((off, sz, l, _)) = freed.iter().find(|(_, sz, l, pos_old)| *l == ci && (ci < 15 || *sz >= e_new.key_size) && *pos_old > e_pre.chain_pos) {
+                fail(ctx, format!("after {}: key file grew from {plen} to {} by a new slot of {} bytes at {} (record of the key at chain position {}) although the free slot at {off} ({sz} bytes, free list {l}) had been freed earlier in the same call by a record further down the chain", op.text(), post.key.len(), e_new.key_size, e_new.key_off, e_pre.chain_pos));
+                return Err(());
+            }
+        }
+        ctx.count("in_call_extension_events_audited", 1);
     }
     // the value slots of all other entries are byte-for-byte what they were (same offset, same bytes)
     for e in dec.entries.iter().filter(|e| &e.key != affected) {
